@@ -12,7 +12,8 @@ from .common import K, Mode
 
 EXPLANATION = ('Relational symbolic execution: the two routes to the same physical solution are both run on the same symbolic '
                'inputs (parameters mapped as documented) in one solver context and z3 decides equality of the returned field '
-               'terms (or, where a route is numerical, that its kernels are satisfied by the closed forms of the other route).')
+               'terms (or, where a route is numerical, that its kernels are satisfied by the closed forms of the other route, and that '
+               'the wave table the ideal-gas DRIVER builds equals what the general-EOS kernels give at the driver\'s own star state).')
 BOUNDS = ['geometry enumerated; one evaluation point; heat series compared mode by mode for n < 3 (quick) / 6 (thorough)',
           'gamma sliced for the Riemann kernels']
 OUTSIDE = ['numerical agreement of the full general-EOS Riemann output with the ideal-gas solver (tables, ODE, interpolation): '
